@@ -39,6 +39,7 @@ type Canon struct {
 	rangeVals  map[types.Object]ast.Expr // range value variables -> the collection
 	loopsDone  bool
 	tupleCand  map[types.Object]bool
+	madeLen    map[types.Object]ast.Expr
 	isLit      bool
 	body       *ast.BlockStmt
 	inlBodies  []ast.Node
@@ -352,6 +353,12 @@ func NewCanonAliased(info *types.Info, pkg *types.Package, recv *ast.FieldList, 
 	}
 	c.body = body
 	c.isLit = outer != nil
+	if outer != nil && outer.madeLen != nil {
+		c.madeLen = map[types.Object]ast.Expr{}
+		for k, v := range outer.madeLen {
+			c.madeLen[k] = v
+		}
+	}
 	if outer != nil {
 		c.idxLoops, c.rangeVals, c.loopsDone = outer.idxLoops, outer.rangeVals, outer.loopsDone
 		if !outer.loopsDone {
@@ -450,6 +457,19 @@ func (c *Canon) scanLocals(body *ast.BlockStmt) {
 		}
 		if _, isVar := o.(*types.Var); !isVar {
 			continue
+		}
+		if e, ok := single[o]; ok {
+			// x := make(T, n) and never assigned again (append would assign): len(x) is n
+			if call, isCall := ast.Unparen(e).(*ast.CallExpr); isCall && len(call.Args) >= 2 {
+				if fid, isId := call.Fun.(*ast.Ident); isId && fid.Name == "make" {
+					if _, isBuiltin := c.Info.ObjectOf(fid).(*types.Builtin); isBuiltin {
+						if c.madeLen == nil {
+							c.madeLen = map[types.Object]ast.Expr{}
+						}
+						c.madeLen[o] = call.Args[1]
+					}
+				}
+			}
 		}
 		if e, ok := single[o]; ok && c.pureExpr(e) {
 			c.expand[o] = e
@@ -631,6 +651,13 @@ func (c *Canon) Term(e ast.Expr) string {
 		}
 		return c.Term(x.X) + "." + x.Sel.Name
 	case *ast.CallExpr:
+		if fid, isId := x.Fun.(*ast.Ident); isId && fid.Name == "len" && len(x.Args) == 1 {
+			if aid, isArg := ast.Unparen(x.Args[0]).(*ast.Ident); isArg {
+				if n, made := c.madeLen[c.Info.ObjectOf(aid)]; made && c.depth < 12 {
+					return c.Term(n)
+				}
+			}
+		}
 		if e, restore := c.inlineCall(x); e != nil {
 			t := c.Term(e)
 			restore()
@@ -1368,9 +1395,21 @@ func LocalSignaturesInlined(info *types.Info, recv *ast.FieldList, ftype *ast.Fu
 	for _, ic := range inl {
 		scan(ic.Decl.Body)
 	}
+	// a counter that runs to E, and the key of a range over a collection made with length E, count the same thing
+	made := MadeLens(info, allBodies)
+	for o, E := range CountLoops(info, allBodies) {
+		if _, known := pos[o]; known {
+			defs[o] = []string{"counts to " + text(E, o)}
+		}
+	}
 	for o, X := range idxLoops {
 		if _, known := pos[o]; known {
 			defs[o] = []string{"range key of " + text(X, o)}
+			if id, ok := ast.Unparen(X).(*ast.Ident); ok {
+				if n, isMade := made[info.ObjectOf(id)]; isMade {
+					defs[o] = []string{"counts to " + text(n, o)}
+				}
+			}
 		}
 	}
 	var out []LocalSig
